@@ -319,11 +319,6 @@ func (s *Sim) rconfAddNode() {
 	elig := s.eligibleNodes()
 	node := elig[s.tape.Draw(len(elig))]
 	id := len(s.nodes) + 1
-	s.rconfAdd = true
-	s.fault("rconf-add")
-	s.nodes = append(s.nodes, &nodeState{id: id, member: false, removed: false, down: false})
-	s.res.Nodes = s.nodes
-	s.joiner = id
 	s.issue(c, bs("rconf", "add", itoa(id), nodeURL(id)), node, len(c.ops), false, false)
 }
 
@@ -358,10 +353,132 @@ func (s *Sim) rconfDeleteNode() {
 		ids = ids[:len(ids)-1]
 	}
 	victim := ids[s.tape.Draw(len(ids))]
-	s.rconfDel = true
-	s.rconfDelHighest = victim == len(s.nodes)
-	s.fault("rconf-delete")
+	// (issue notes the command: the victim is no longer expected to serve)
 	s.issue(c, bs("rconf", "delete", itoa(victim)), node, len(c.ops), false, false)
-	// whatever happens to it, the victim is no longer expected to serve
-	s.nodes[victim-1].removed = true
+}
+
+// fireScript fires the next due scripted fault, if any.
+func (s *Sim) fireScript() bool {
+	sf := (*ScriptedFault)(nil)
+	for i := range s.sc.Faults.Script {
+		f := &s.sc.Faults.Script[i]
+		if !f.fired && s.res.Acked >= f.AfterAcked {
+			sf = f
+			break
+		}
+	}
+	if sf == nil {
+		return false
+	}
+	pickNode := func() *nodeState {
+		if sf.Node >= 1 && sf.Node <= len(s.nodes) {
+			return s.nodes[sf.Node-1]
+		}
+		if l := s.leaderID(); l != 0 {
+			return s.nodes[l-1]
+		}
+		return nil
+	}
+	hold := sf.Hold
+	if hold == 0 {
+		hold = 50
+	}
+	switch sf.Kind {
+	case "crash", "crash-seam", "crash-all":
+		ns := pickNode()
+		if ns == nil || !s.isLive(ns) {
+			if sf.Node != 0 {
+				sf.fired = true
+			}
+			return false // no leader yet: try again later
+		}
+		sf.fired = true
+		s.res.FaultsAny = true
+		if sf.Kind == "crash" || (sf.Kind == "crash-all" && sf.Seam == "") {
+			s.journal(s.deathSig(), "script: %s n%d at quiescence", sf.Kind, ns.id)
+			s.mu.Lock()
+			s.scriptLose = sf.Lose
+			if sf.Kind == "crash-all" {
+				for _, id := range s.liveIDs() {
+					s.crashLocked(s.nodes[id-1].inc, "crash-at-quiescence")
+				}
+				s.res.Faults["all-nodes-crash"]++
+			} else {
+				s.crashLocked(ns.inc, "crash-at-quiescence")
+			}
+			s.scriptLose = ""
+			s.mu.Unlock()
+			for _, x := range s.nodes {
+				if x.down {
+					x.holdTill = s.step + hold
+				}
+			}
+			return true
+		}
+		kind := seamBeforeSync
+		for i, n := range seamNames {
+			if n == sf.Seam {
+				kind = seamKind(i)
+			}
+		}
+		cd := sf.Countdown
+		if cd <= 0 {
+			cd = 1
+		}
+		s.mu.Lock()
+		ns.inc.arm = &crashArm{kind: kind, countdown: cd, all: sf.Kind == "crash-all", lose: sf.Lose}
+		s.mu.Unlock()
+		s.fault("crash-armed")
+		s.journal(s.deathSig(), "script: arm crash of n%d at %s #%d", ns.id, seamNames[kind], cd)
+		s.trace("script arm-crash n%d %s #%d", ns.id, seamNames[kind], cd)
+		return true
+	case "isolate-leader", "partition":
+		ns := pickNode()
+		if ns == nil {
+			return false
+		}
+		sf.fired = true
+		s.res.FaultsAny = true
+		for _, o := range s.nodes {
+			if o.id != ns.id {
+				s.blocked[[2]uint64{uint64(ns.id), uint64(o.id)}] = true
+				s.blocked[[2]uint64{uint64(o.id), uint64(ns.id)}] = true
+			}
+		}
+		s.partitioned, s.partHoldTill = true, s.step+hold
+		if sf.Kind == "isolate-leader" {
+			s.fault("leader-isolated")
+		} else {
+			s.fault("partition")
+		}
+		s.trace("script isolate n%d hold=%d", ns.id, hold)
+		return true
+	case "heal":
+		sf.fired = true
+		if s.partitioned {
+			s.heal()
+		}
+		return true
+	case "restart":
+		sf.fired = true
+		for _, ns := range s.nodes {
+			if ns.down && ns.member && !ns.removed && (sf.Node == 0 || sf.Node == ns.id) {
+				s.restart(ns)
+				return true
+			}
+		}
+		return false
+	case "slow-node":
+		ns := pickNode()
+		if ns == nil {
+			return false
+		}
+		sf.fired = true
+		ns.slowTill = s.step + hold
+		s.fault("slow-node")
+		s.trace("script slow n%d hold=%d", ns.id, hold)
+		return true
+	}
+	sf.fired = true
+	return false
 }
